@@ -431,6 +431,17 @@ fn direct_list(rng: &mut Rng, cfg: &GenCfg) -> Vec<Stmt> {
             g.simple_line_public(&mut out);
             out.push(Stmt::Next(if rng.pct(50) { vec![Var::new("I%")] } else { vec![] }));
         }
+        1 if rng.pct(40) => {
+            // the list begins with WHILE itself (WEND jumps back to the very first opcode of the line)
+            out.push(Stmt::While(Expr::bin(BinOp::Lt, Expr::var("W1%"), Expr::Int(rng.range(0, 3) as i16))));
+            g.simple_line_public(&mut out);
+            out.push(Stmt::Let {
+                kw: false,
+                target: LVal::scalar("W1%"),
+                expr: Expr::bin(BinOp::Add, Expr::var("W1%"), Expr::Int(1)),
+            });
+            out.push(Stmt::Wend);
+        }
         1 => {
             out.push(Stmt::Let {
                 kw: false,
